@@ -12,7 +12,7 @@ pub const INFO: CheckInfo = CheckInfo {
     level: "model_checking",
     rule: "bounded exhaustive enumeration of byte strings: the R4-built corpus (every token program of <= 2 (quick) / 3 (thorough) tokens over {lit, lit, match(3,1), match(4,2), match(10,1), match(258,1), match(257,3), match(3,4)} in fixed and dynamic blocks, stored blocks at all 8 bit offsets, every complete canonical code on <= 5 symbols incl. extremes, 15-bit codes, 286/30-symbol alphabets, +-1 length faults, illegal HLIT/HDIST) in raw / zlib / gzip wrappers (R3 headers with all field combinations) x {intact, trailing garbage, every truncation, every single-bit flip} x windowBits arguments (raw -8..-15, zlib 0/8..15, gzip 16+, auto 32+), plus all byte strings of length <= 2 (3 in thorough); every intact valid stream is also decoded into a buffer of exactly the decoded size + {0,1,2,7,8,15,16,31,32,33,63,64} bytes (Z_FINISH and Z_NO_FLUSH). Verdict (complete / need more / data error / need dict), output bytes and consumed length are compared with the reference R2+R3; when the reference says 'invalid' and zlib-rs still wants input, 16 padding bytes are appended and a data error is required. The corpus includes the code-length sets needing the largest two-level decoding tables (every histogram of a class ranked by an independent model of the sub-table sizing rule; the maximum found is the known bound of 1332 entries). Disagreements where zlib-ng sides with zlib-rs are counted as model_divergence, not reported. distinct_nontrivial = distinct (verdict, output, consumed) outcomes.",
     assumptions: &["R2/R3/R4 trusted (self-tested against zlib-ng at start-up)", "zlib's non-strict reading: 32 KiB history whatever window is announced; incomplete codes only when all codes have length 1", "strings that are neither in the corpus nor <= 2/3 bytes long are not covered"],
-    bound_quick: "token programs <= 2, H-codes with 2 fault positions, all strings <= 2 bytes, every bit flip/truncation of streams <= 300 bytes",
+    bound_quick: "every intact valid stream <= 400 bytes also fed 1, 2 and 3 bytes per call (resumed decoding states) against the generator's expected bytes; token programs <= 2, H-codes with 2 fault positions, all strings <= 2 bytes, every bit flip/truncation of streams <= 300 bytes",
     bound_thorough: "token programs <= 3, all H-code fault positions, all strings <= 3 bytes, byte substitutions 0x00/0xff",
 };
 
@@ -170,6 +170,21 @@ pub fn run(ctx: &mut Ctx) {
                             }
                         }
                         c.count("exact_size_output_runs", 12);
+                    }
+                    // "decodes them exactly" holds however the valid stream arrives: every decoding state that can be
+                    // left and re-entered between two calls (length / distance extra bits, code lengths, stored copy,
+                    // trailer fields) is resumed when the input comes 1, 2 or 3 bytes at a time (C04 compares the
+                    // schedules with each other; here the result is held against the generator's expected bytes)
+                    if t0.fin == Fin::StreamEnd && it.bytes.len() <= 400 && want.len() <= 70000 {
+                        for n in [1usize, 2, 3] {
+                            c.exec();
+                            let s = ISched::uniform(n, AMPLE, Z_NO_FLUSH);
+                            let t = run_inflate::<Rs>(it.wb, it.bytes, &s, &env, &IExtra { expect_out: want.len(), ..Default::default() }, None)?;
+                            if t.fin != Fin::StreamEnd || t.out != *want || t.consumed != it.bytes.len() {
+                                return Err(format!("valid stream fed {n} byte(s) per call: {:?} after {} of {} bytes, {} bytes out (first difference at {:?}); in one call it is accepted and decodes exactly", t.fin, t.consumed, it.bytes.len(), t.out.len(), t.out.iter().zip(want).position(|(a, b)| a != b)));
+                            }
+                        }
+                        c.count("small_input_piece_runs", 3);
                     }
                 }
                 Ok(())
